@@ -21,8 +21,11 @@ import (
 	"testing/synctest"
 	"time"
 
+	ethcommon "github.com/ethereum/go-ethereum/common"
 	"go.uber.org/zap"
 	"go.uber.org/zap/zapcore"
+
+	ethtypes "github.com/ethereum/go-ethereum/core/types"
 
 	"github.com/bloxapp/ssv/eth/eventsyncer"
 	"github.com/bloxapp/ssv/eth/executionclient"
@@ -44,6 +47,7 @@ type invocation struct {
 	firstFrom   uint64 // fromBlock of the first eth_getLogs (diagnostics only)
 	entries     int    // BlockLogs handed to the handler during this invocation
 	end         string // "" while running; fault class that ended it
+	dialsAtEnd  int    // number of dials when the fault was recorded
 	endApplied  bool
 }
 
@@ -73,7 +77,13 @@ func (inv *invocation) label() (class, path string) {
 type entry struct {
 	inv   int
 	block uint64
-	logs  []lkey
+	logs  []lkey // judged content, computed when the handler processed the entry
+	// recv is the very BlockLogs value the handler was handed: its Logs slice is kept BY REFERENCE and
+	// read again at every later quiescence and at the end of the run (an entry must not change after it
+	// was handed over). snap is a deep copy made at processing time, used only to render messages.
+	recv    executionclient.BlockLogs
+	snap    []ethtypes.Log
+	mutated bool
 }
 
 // lkey identifies a delivered log by everything the statement talks about.
@@ -95,6 +105,12 @@ type session struct {
 	how     string // why the session ended
 	gaveUp  string // message of the intercepted Fatal/Panic
 	closing bool
+	// slow consumer: in lag mode the handler takes an entry from the channel and then waits for a token
+	// of the driver (consume step) before it reads it; gate closed = no lag (any more)
+	gate        chan struct{}
+	gateOpen    bool // still lagging (gate not closed)
+	waiting     bool // the handler holds an entry and waits for a token
+	historyDone bool
 }
 
 type world struct {
@@ -125,6 +141,9 @@ type world struct {
 
 	// oracle state (driver goroutine only)
 	fd, batch, start0 uint64
+	lagMode, noLag    bool
+	mineRun           int // generator only: remaining steps of a run of consecutive mine steps
+	logBatches        int // eth_getLogs replies with logs since the last quiescence
 	started           bool
 	judged            int
 	hwm               uint64
@@ -165,6 +184,7 @@ func (w *world) endInvocation(method string, _ bool) {
 	if inv == nil || inv.end != "" {
 		return
 	}
+	inv.dialsAtEnd = w.dialCount
 	switch method {
 	case "eth_getLogs":
 		inv.end = "fetch-error"
@@ -219,27 +239,72 @@ func (c simCore) Write(e zapcore.Entry, _ []zapcore.Field) error {
 // ---------------------------------------------------------------------------------------------
 // the stub event handler = the collector
 
-type collector struct{ w *world }
+type collector struct {
+	w *world
+	s *session
+}
+
+// keysOf renders delivered logs as the oracle sees them (caller holds w.mu).
+func (w *world) keysOf(logs []ethtypes.Log) []lkey {
+	var out []lkey
+	for _, l := range logs {
+		k := lkey{block: l.BlockNumber, tx: l.TxIndex, idx: l.Index, removed: l.Removed, foreign: l.Address != contractAddr}
+		if b := w.chain.blocks[l.BlockNumber]; b != nil && int(l.Index) < len(b.logs) {
+			ref := w.chain.ethLog(b, b.logs[l.Index])
+			k.known = ref.Address == l.Address && string(ref.Data) == string(l.Data) && ref.TxIndex == l.TxIndex &&
+				ref.TxHash == l.TxHash && ref.BlockHash == l.BlockHash && len(l.Topics) == 1 && l.Topics[0] == eventTopic
+			if b.logs[l.Index].removed {
+				k.removed = true
+			}
+		}
+		out = append(out, k)
+	}
+	return out
+}
+
+func deepCopyLogs(logs []ethtypes.Log) []ethtypes.Log {
+	out := make([]ethtypes.Log, len(logs))
+	for i, l := range logs {
+		out[i] = l
+		out[i].Topics = append([]ethcommon.Hash(nil), l.Topics...)
+		out[i].Data = append([]byte(nil), l.Data...)
+	}
+	return out
+}
+
+func sameLog(a, b ethtypes.Log) bool {
+	if a.Address != b.Address || a.BlockNumber != b.BlockNumber || a.TxHash != b.TxHash || a.TxIndex != b.TxIndex ||
+		a.BlockHash != b.BlockHash || a.Index != b.Index || a.Removed != b.Removed || string(a.Data) != string(b.Data) || len(a.Topics) != len(b.Topics) {
+		return false
+	}
+	for i := range a.Topics {
+		if a.Topics[i] != b.Topics[i] {
+			return false
+		}
+	}
+	return true
+}
 
 func (c collector) HandleBlockEventsStream(logs <-chan executionclient.BlockLogs, executeTasks bool) (uint64, error) {
 	var last uint64
-	for bl := range logs {
-		w := c.w
+	w, s := c.w, c.s
+	for bl := range logs { // the entry is now in the handler's hands
 		w.mu.Lock()
-		inv := w.curInvocation()
-		e := entry{inv: inv.id, block: bl.BlockNumber}
-		for _, l := range bl.Logs {
-			k := lkey{block: l.BlockNumber, tx: l.TxIndex, idx: l.Index, removed: l.Removed, foreign: l.Address != contractAddr}
-			if b := w.chain.blocks[l.BlockNumber]; b != nil && int(l.Index) < len(b.logs) {
-				ref := w.chain.ethLog(b, b.logs[l.Index])
-				k.known = ref.Address == l.Address && string(ref.Data) == string(l.Data) && ref.TxIndex == l.TxIndex &&
-					ref.TxHash == l.TxHash && ref.BlockHash == l.BlockHash && len(l.Topics) == 1 && l.Topics[0] == eventTopic
-				if b.logs[l.Index].removed {
-					k.removed = true
-				}
-			}
-			e.logs = append(e.logs, k)
+		lag := s.gateOpen
+		s.waiting = lag
+		w.mu.Unlock()
+		if lag {
+			<-s.gate // a token of the driver, or the gate was closed (no lag any more / process exit)
 		}
+		w.mu.Lock()
+		s.waiting = false
+		if s.closing { // the process exited before it finished this entry: nothing was processed
+			w.mu.Unlock()
+			continue
+		}
+		inv := w.curInvocation()
+		e := entry{inv: inv.id, block: bl.BlockNumber, recv: bl, snap: deepCopyLogs(bl.Logs)}
+		e.logs = w.keysOf(bl.Logs)
 		inv.entries++
 		w.entries = append(w.entries, e)
 		w.mu.Unlock()
@@ -270,7 +335,10 @@ func (w *world) boot() {
 	w.started = true
 	ctx, cancel := context.WithCancel(context.Background())
 	w.mu.Lock()
-	s := &session{id: len(w.sess), from: from, ctx: ctx, cancel: cancel}
+	s := &session{id: len(w.sess), from: from, ctx: ctx, cancel: cancel, gate: make(chan struct{}, 1<<16), gateOpen: true}
+	if !w.lagMode || w.noLag {
+		w.closeGate(s)
+	}
 	w.sess = append(w.sess, s)
 	w.beginInvocation(false)
 	w.mu.Unlock()
@@ -293,7 +361,7 @@ func (w *world) boot() {
 		w.mu.Lock()
 		s.ec = ec
 		w.mu.Unlock()
-		syncer := eventsyncer.New(nil, ec, collector{w})
+		syncer := eventsyncer.New(nil, ec, collector{w, s})
 		last, err := syncer.SyncHistory(ctx, from)
 		next := from
 		switch {
@@ -307,9 +375,41 @@ func (w *world) boot() {
 			end("history-sync-failed")
 			return
 		}
+		w.mu.Lock()
+		s.historyDone = true
+		w.mu.Unlock()
 		_ = syncer.SyncOngoing(ctx, next)
 		end("stream-ended")
 	}()
+}
+
+// closeGate ends the lag of a session's handler for good (caller holds w.mu).
+func (w *world) closeGate(s *session) {
+	if s.gateOpen {
+		s.gateOpen = false
+		close(s.gate)
+	}
+}
+
+// consume lets the lagging handler process k more entries (now or when they arrive).
+func (w *world) consume(k int) {
+	w.mu.Lock()
+	defer w.mu.Unlock()
+	s := (*session)(nil)
+	if len(w.sess) > 0 && !w.sess[len(w.sess)-1].ended {
+		s = w.sess[len(w.sess)-1]
+	}
+	if s == nil || !s.gateOpen {
+		w.d.Logf("consume %d: handler does not lag, no-op", k)
+		return
+	}
+	w.d.Logf("consume %d (handler holds an entry: %v)", k, s.waiting)
+	for i := 0; i < k; i++ {
+		select {
+		case s.gate <- struct{}{}:
+		default:
+		}
+	}
 }
 
 // kill stops the live session (process exit of the node) and waits, in fake time, until all its
@@ -320,6 +420,7 @@ func (w *world) kill() {
 	for _, s := range w.sess {
 		if !s.ended {
 			s.closing = true
+			w.closeGate(s) // whatever the handler still holds or would receive dies with the process
 			live = append(live, s)
 		}
 	}
@@ -327,6 +428,11 @@ func (w *world) kill() {
 	// Only the context is cancelled (ExecutionClient.Close would make several select cases ready at
 	// once): an idle streamLogsToChan returns context.Canceled; a client inside its reconnect loop
 	// runs the rest of the back-off schedule on the fake clock and then hits its Panic (intercepted).
+	// A lagging handler leaves the client busy (forwarder blocked on the logs channel, heads queued in
+	// the subscription): cancelling now would make two select cases ready at once (next head / ctx.Done),
+	// a choice no seed controls. The handler has stopped processing (closing: entries are discarded, the
+	// last processed block stays what it was); the client first runs to its idle point, then is cancelled.
+	w.quiesce()
 	for _, s := range live {
 		s.cancel()
 	}
@@ -389,11 +495,27 @@ func (w *world) clientState() string {
 	if c := w.liveConn(); c != nil && c.subLive {
 		return "subscribed"
 	}
+	if !s.historyDone && s.ec != nil {
+		return "syncing" // inside SyncHistory (only observable at quiescence while the handler lags)
+	}
 	return "reconnecting"
+}
+
+// lagging: the handler of the live session holds an entry and waits for the driver.
+func (w *world) lagging() bool {
+	w.mu.Lock()
+	defer w.mu.Unlock()
+	if len(w.sess) == 0 {
+		return false
+	}
+	s := w.sess[len(w.sess)-1]
+	return !s.ended && s.waiting
 }
 
 // ---------------------------------------------------------------------------------------------
 // run
+
+var dumpSeq int
 
 func run(t *testing.T, d *sim.D) {
 	synctest.Test(t, func(t *testing.T) {
@@ -407,14 +529,22 @@ func run(t *testing.T, d *sim.D) {
 		if w.batch > 5000 {
 			w.batch = 5000
 		}
+		w.lagMode = d.Cfg.Get("lag", 0) == 1
 		w.start0 = uint64(d.Cfg.Get("start", 1))
 		if w.start0 < 1 { // the node starts at the registry deployment block or at last processed + 1, never at 0
 			w.start0 = 1
 		}
+		if dump := os.Getenv("ELSIM_DUMP"); dump != "" { // debugging aid: write the event log of every run
+			d.KeepLog = true
+			defer func() {
+				dumpSeq++
+				_ = os.WriteFile(fmt.Sprintf("%s.%d.%d", dump, d.Seed, dumpSeq), []byte(strings.Join(d.Lines, "\n")+"\n"), 0o644)
+			}()
+		}
 		executionclient.VerifDial = w.dial
 		defer func() { executionclient.VerifDial = nil }()
 		defer w.teardown()
-		d.Logf("config batch=%d fd=%d start=%d", w.batch, w.fd, w.start0)
+		d.Logf("config batch=%d fd=%d start=%d lag=%v", w.batch, w.fd, w.start0, w.lagMode)
 		for {
 			st, ok := d.Next(func(r *sim.Rand) *sim.Step { return w.gen(r) })
 			if !ok {
@@ -424,6 +554,7 @@ func run(t *testing.T, d *sim.D) {
 			w.settle(st.Op)
 		}
 		w.finale()
+		w.recheck("end of run")
 		d.SimTime = time.Since(w.t0)
 		d.Nontriv = w.nonEmpty >= 2 && w.announced >= 1
 	})
@@ -496,6 +627,9 @@ func (w *world) exec(st sim.Step) {
 		w.refuseDials = n
 		w.mu.Unlock()
 		d.Logf("refuse_dials: next %d dials are refused", n)
+	case "consume":
+		k := 1 + int(uint64(st.Arg(0))%1000)
+		w.consume(k)
 	case "advance":
 		ms := uint64(st.Arg(0)) % 200_000
 		time.Sleep(time.Duration(ms) * time.Millisecond)
@@ -589,8 +723,17 @@ func (w *world) settle(op string) {
 		d.Logf("  client: %s x%d", k, zc[k])
 	}
 	w.judge()
+	w.recheck("quiescence after " + op)
 	cs := w.clientState()
+	if w.lagging() {
+		cs += "+lag"
+		d.Probe("handler-lagging")
+	}
 	w.mu.Lock()
+	if w.logBatches >= 2 {
+		d.Probe("round-with-2+-log-batches")
+	}
+	w.logBatches = 0
 	armed := 0
 	if w.dropAt != 0 {
 		armed |= 1
@@ -639,8 +782,13 @@ func (w *world) finale() {
 	}
 	w.mu.Lock()
 	w.dropAt, w.failGetLogsAt, w.failSubscribe, w.refuseDials = 0, 0, 0, 0
+	w.noLag = true
+	if len(w.sess) > 0 {
+		w.closeGate(w.sess[len(w.sess)-1])
+	}
 	w.mu.Unlock()
-	d.Logf("finale: faults disarmed")
+	d.Logf("finale: faults disarmed, handler no longer lags")
+	w.settle("finale-drain")
 	const cycle = 130 * time.Second // 1+2+4+...+64 s = the whole back-off schedule
 	for attempt := 0; attempt < 2; attempt++ {
 		for i := 0; i < 3 && w.clientState() == "reconnecting"; i++ {
@@ -715,11 +863,11 @@ var Specs = map[string]*sim.Spec{
 		Stub: []string{
 			"execution node: go-ethereum rpc.Server with a fake eth service (eth_blockNumber, eth_getLogs, eth_subscribe newHeads, eth_chainId, eth_syncing) over net.Pipe, installed through executionclient.VerifDial (build tag verif)",
 			"chain: generated blocks (logs per block / per transaction, Removed flags, logs of a foreign contract)",
-			"event handler: collector recording every BlockLogs (returns the last block number like the real handler)",
+			"event handler: collector recording every BlockLogs by reference (returns the last block number like the real handler); optionally a slow consumer driven by consume steps",
 			"node start-up glue of cli/operator/node.go (from = last processed block + 1; restart after exit)",
 			"clock: testing/synctest fake clock; zap core turning Fatal/Panic into goroutine exit",
 		},
-		Rule:        "seeded programs of mine / boot / announce (single, repeated, skipping, burst) / drop_idle / arm_drop (k-th request) / arm_getlogs_fail (k-th) / arm_sub_fail / refuse_dials / advance / restart, followed by a fault-free finale (bounded liveness); batch size 1-5000, follow distance 0-8, start block 1-40. Non-trivial = at least 2 non-empty BlockLogs delivered and at least 1 head announced; distinct = hash of the sequence of (op, client state, undelivered log blocks capped 3, unannounced blocks capped 3, armed faults, how the current invocation ended, pending faults).",
+		Rule:        "seeded programs of mine (single or runs of 2-7 close log-bearing blocks) / boot / announce (single, repeated, skipping, burst) / consume (slow handler: in half of the runs the handler takes an entry and reads it only when a consume step grants a token, so entries sit in the channel buffer and in the handler while later batches are fetched) / drop_idle / arm_drop (k-th request) / arm_getlogs_fail (k-th) / arm_sub_fail / refuse_dials / advance / restart, followed by a fault-free finale (bounded liveness); every entry is judged when the handler processes it and read again, through the very slice it was handed, at every later quiescence and at the end of the run; batch size 1-5000 (small sizes over-weighted), follow distance 0-8, start block 1-40. Non-trivial = at least 2 non-empty BlockLogs delivered and at least 1 head announced; distinct = hash of the sequence of (op, client state incl. handler lag, undelivered log blocks capped 3, unannounced blocks capped 3, armed faults, how the current invocation ended, pending faults).",
 		Assumptions: []string{"a connection dropped instead of a reply is closed once the client has finished sending the request and waits for the reply (the go-ethereum rpc.Client race between a read error and the reqSent notification of the request in flight is not explored: it depends on goroutine scheduling, no seed controls it)", "the node answers eth_getLogs with logs in canonical (block, tx index, log index) order and honours the address filter", "heads are announced in non-decreasing order (no reorganisations)", "one external event at a time: every injected event is followed by quiescence of all goroutines before the next"},
 	},
 }
